@@ -823,7 +823,7 @@ func c09EnumCombined(c *vf.Ctx, maxN int) {
 func runC09(c *vf.Ctx) {
 	maxN, combN := 7, 5
 	if c.Tier == "thorough" {
-		maxN, combN = 9, 6
+		maxN, combN = 10, 7
 		c.SetBudget(10 * 60 * 1e9)
 	}
 	c.Rule = "every run-length table of N samples: stts = all compositions of N x deltas {1,2,3,2^31,2^32-1} per run (+ final single zero duration); ctts v0/v1 = all compositions x offsets {0,1,2}/{0,1,-1} (+ a zero-count run at every position); stsc = all chunkings (compositions) x every run-length encoding of the chunking (canonical and redundant) x description ids {1,2} per entry; stsz uniform / all size vectors over {1,2,3,2^31,2^32-1}; stco/co64 boundary offsets; stss every subset; sdtp all 256 entry values. Tables are serialised by an independent raw writer, decoded by the library, and every query is asked for every sample number, every interval 1<=a<=b<=N and every time 0..total+1 and compared with the naive per-sample expansion. Combined queries (GetSampleData, GetRangesForSampleInterval, CopySampleData in memory and lazy with work buffers of 0,1,2,3,4,6 bytes) on generated files for all chunkings of N samples x 8 table variants x {1,2} tracks; on the files with N-2 or fewer samples every ORDERED PAIR of queries (all per-sample, per-interval, per-chunk and per-time queries of a track) is asked on a freshly decoded file and the second answer must equal the answer given alone. A case = one table/file (distinct by construction)."
